@@ -19,6 +19,8 @@ package main
 import (
 	"context"
 	"fmt"
+	"net/http"
+	"net/http/httptest"
 	"os"
 	"path/filepath"
 	"sort"
@@ -29,10 +31,16 @@ import (
 
 	"verifharness/internal/coqfmt"
 	"verifharness/internal/rng"
+	"verifharness/internal/sim"
 
 	"github.com/yorkie-team/yorkie/api/types"
 	"github.com/yorkie-team/yorkie/api/types/events"
+	"github.com/yorkie-team/yorkie/client"
+	"github.com/yorkie-team/yorkie/pkg/document"
+	yjson "github.com/yorkie-team/yorkie/pkg/document/json"
+	"github.com/yorkie-team/yorkie/pkg/document/presence"
 	"github.com/yorkie-team/yorkie/pkg/document/time"
+	"github.com/yorkie-team/yorkie/pkg/key"
 	"github.com/yorkie-team/yorkie/server/backend/pubsub"
 	"github.com/yorkie-team/yorkie/server/logging"
 )
@@ -454,6 +462,22 @@ func runPubSub(cfg *config) error {
 	x := parseX(cfg.extra)
 	seen := distinct{}
 	var cases []string
+	// end to end first (the server sets the global log level when it starts: nothing else may be
+	// running then): a real server, a client that watches, another that pushes - on a plain project
+	// and on one whose event webhook endpoint is down
+	if srv, err := sim.Start(cfg.out, sim.Options{}); err != nil {
+		res.Violations = append(res.Violations, Violation{Kind: "harness-fatal", Detail: err.Error()})
+	} else {
+		for _, failingHook := range []bool{false, true} {
+			n, probs := pubsubEndToEnd(cfg, srv, failingHook)
+			res.Evaluations += n
+			res.Dist[fmt.Sprintf("e2e.pushes-checked.failing-webhook=%v", failingHook)] = n
+			for _, p := range probs {
+				res.Violations = append(res.Violations, Violation{Kind: "watcher-not-told", Detail: p, Replay: map[string]any{"seed": cfg.seed, "failing_webhook": failingHook}})
+			}
+		}
+		srv.Stop()
+	}
 	type out struct {
 		c   string
 		log []string
@@ -540,4 +564,104 @@ func runPubSub(cfg *config) error {
 	}
 	res.CaseFiles = []string{p1}
 	return res.write(cfg.out)
+}
+
+// pubsubEndToEnd: PushPull step 04 publishes after every stored push.  One SDK client watches a
+// document through the real RPC stack, another pushes changes one at a time; every push has to
+// reach the watcher as a DocumentChanged event within the bound - also when the project has an
+// event webhook whose endpoint answers 500.
+func pubsubEndToEnd(cfg *config, srv *sim.Server, failingHook bool) (int, []string) {
+	ctx := context.Background()
+	var probs []string
+	p, err := srv.NewProject(ctx, 0, 0)
+	if err != nil {
+		return 0, []string{"harness: " + err.Error()}
+	}
+	if failingHook {
+		hook := httptest.NewServer(http.HandlerFunc(func(w http.ResponseWriter, r *http.Request) { w.WriteHeader(http.StatusInternalServerError) }))
+		defer hook.Close()
+		retries := uint64(0)
+		evs := []string{string(types.DocRootChanged)}
+		if _, err := srv.Be.DB.UpdateProjectInfo(ctx, p.ID, &types.UpdatableProjectFields{EventWebhookURL: &hook.URL, EventWebhookEvents: &evs, EventWebhookMaxRetries: &retries}); err != nil {
+			return 0, []string{"harness: " + err.Error()}
+		}
+	}
+	dial := func() (*client.Client, error) {
+		c, err := client.Dial(srv.Addr, client.WithAPIKey(p.PublicKey))
+		if err != nil {
+			return nil, err
+		}
+		return c, c.Activate(ctx)
+	}
+	c1, err := dial()
+	if err != nil {
+		return 0, []string{"harness: " + err.Error()}
+	}
+	c2, err := dial()
+	if err != nil {
+		return 0, []string{"harness: " + err.Error()}
+	}
+	defer func() { _ = c1.Close(); _ = c2.Close() }()
+	k := key.Key(fmt.Sprintf("e2e-%d-%v", cfg.seed, failingHook))
+	d1, d2 := document.New(k), document.New(k)
+	for _, d := range []*document.Document{d1, d2} {
+		d := d
+		go func() {
+			for range d.Events() {
+			}
+		}()
+	}
+	if err := c1.Attach(ctx, d1, client.WithRealtimeSync()); err != nil {
+		return 0, []string{"harness: " + err.Error()}
+	}
+	rch, cancel, err := c1.WatchStream(d1)
+	if err != nil {
+		return 0, []string{"harness: " + err.Error()}
+	}
+	defer cancel()
+	changed := make(chan struct{}, 256)
+	go func() {
+		for resp := range rch {
+			if resp.Err != nil {
+				return
+			}
+			if resp.Type == client.DocumentChanged {
+				changed <- struct{}{}
+			}
+		}
+	}()
+	if err := c2.Attach(ctx, d2); err != nil {
+		return 0, []string{"harness: " + err.Error()}
+	}
+	drain := func(quiet gotime.Duration) {
+		t := gotime.NewTimer(quiet)
+		for {
+			select {
+			case <-changed:
+				t.Reset(quiet)
+			case <-t.C:
+				return
+			}
+		}
+	}
+	drain(500 * gotime.Millisecond)
+	n := 0
+	for i := 0; i < 5; i++ {
+		_ = d2.Update(func(root *yjson.Object, pr *presence.Presence) error { root.SetInteger("k", i); return nil })
+		if err := c2.Sync(ctx); err != nil {
+			probs = append(probs, fmt.Sprintf("push %d failed: %v", i, err))
+			break
+		}
+		n++
+		select {
+		case <-changed:
+		case <-gotime.After(4 * gotime.Second):
+			probs = append(probs, fmt.Sprintf("failing webhook=%v: push %d of the other client was stored (the sync succeeded), the watcher got no DocumentChanged within 4 s", failingHook, i))
+		}
+		if len(probs) > 0 {
+			break
+		}
+		drain(150 * gotime.Millisecond)
+	}
+	return n, probs
 }
